@@ -18,7 +18,7 @@ Definition floop : list stmt :=
 Definition tfloop : list stmt :=
   match lookup "try_slice_fill_with_loop" src_procs with Some p => proc_body p | None => [] end.
 
-Definition fcount : expr := EBin BSub (EVar "len") (ELit 0).
+Definition fcount : expr := EMeth1 (EVar "len") "saturating_sub" (ELit 0).
 Definition fbody : list stmt :=
   [SDoMay "f" [EVar "i"];
    SDo "write" [EMeth1 (EMeth0 (EVar "dst") "as_ptr") "add" (EVar "i")];
@@ -103,8 +103,8 @@ Proof.
   replace (upd "i" (VN 0) (fenv0 len dst)) with (fenv len dst 0) by reflexivity.
   rewrite exec_repeat.
   replace (eval src_fns FUEL_SEM (fenv len dst 0) fcount) with (Ret (VN len)).
-  2:{ unfold fcount. cbv beta iota zeta delta [eval FUEL_SEM fenv lookup bind arith String.eqb Ascii.eqb Bool.eqb].
-      replace (0 <=? len) with true by (symmetry; apply N.leb_le; lia). rewrite N.sub_0_r. reflexivity. }
+  2:{ unfold fcount. cbv beta iota zeta delta [eval FUEL_SEM fenv lookup bind meth1 String.eqb Ascii.eqb Bool.eqb].
+      rewrite N.sub_0_r. reflexivity. }
   apply rounds_are_frun; lia.
 Qed.
 
@@ -276,8 +276,8 @@ Proof.
   replace (upd "i" (VN 0) (tyenv0 len dst bp lay)) with (tyenv len dst bp lay 0) by reflexivity.
   rewrite exec_repeat.
   replace (eval src_fns FUEL_SEM (tyenv len dst bp lay 0) fcount) with (Ret (VN len)).
-  2:{ unfold fcount. cbv beta iota zeta delta [eval FUEL_SEM tyenv lookup bind arith String.eqb Ascii.eqb Bool.eqb].
-      replace (0 <=? len) with true by (symmetry; apply N.leb_le; lia). rewrite N.sub_0_r. reflexivity. }
+  2:{ unfold fcount. cbv beta iota zeta delta [eval FUEL_SEM fenv tyenv lookup bind meth1 String.eqb Ascii.eqb Bool.eqb].
+      rewrite N.sub_0_r. reflexivity. }
   apply rounds_are_tyrun; lia.
 Qed.
 
